@@ -1,13 +1,22 @@
 /-
   C09 — Sparse vector algebra equals dense arithmetic.
   Property theorems only (helper lemmas live in Proofs/).
+
+  `denE es i` is the dense value of the entry list `es` at index `i`, `denM rows i j` the dense
+  value of a row table at `(i, j)`; `Sorted es` = strictly increasing indices,
+  `WF dim es` = `Sorted es` and all indices `< dim`.
 -/
 import EtVerif.Proofs.Vec
+import EtVerif.Proofs.VecDot
+import Mathlib.Algebra.Order.Field.Rat
+import Mathlib.Tactic.NormNum
 
 namespace EtVerif.C09
 open EtVerif
 
 variable {K : Type} [Field K] [LinearOrder K]
+
+/-! ## 1. sum and difference -/
 
 /-- `AddVec`: the result denotes the dense sum. -/
 theorem den_add (v1 v2 r : Vec K) (h : v1.addVec v2 = .ok r) (i : Nat) :
@@ -24,5 +33,272 @@ theorem den_sub (v1 v2 r : Vec K) (h : v1.subVec v2 = .ok r) (i : Nat) :
   split at h
   · cases h
   · cases h; exact den_subEntries _ _ _
+
+/-! ## 2. scaling -/
+
+/-- `ScaleVec`: the result denotes the dense scaled vector, for every factor (including `0`,
+    where the entries are cleared, and `1`, where they are kept) and every vector. -/
+theorem den_scale (a : K) (v : Vec K) (i : Nat) :
+    denE (Vec.scale a v).entries i = a * denE v.entries i := by
+  unfold Vec.scale
+  by_cases h0 : a = 0
+  · simp [h0]
+  · simp only [s_isZero, h0, decide_false, Bool.false_eq_true, if_false]
+    exact den_scaleEntries a v.entries i
+
+/-- `ScaleVec` keeps the dimension. -/
+theorem dim_scale (a : K) (v : Vec K) : (Vec.scale a v).dim = v.dim := by
+  unfold Vec.scale; split <;> rfl
+
+/-! ## 3. element sum and Euclidean norm -/
+
+/-- The Kahan–Babuška–Neumaier summer returns the plain sum in exact arithmetic
+    (its compensation term is identically `0`). -/
+theorem kbn_exact (xs : List K) : kbnSum xs = xs.sum := kbnSum_eq_sum xs
+
+/-- `Vector.Sum` is the sum of the dense vector. -/
+theorem sum_eq (v : Vec K) (h : WF v.dim v.entries) :
+    Vec.sum v = ∑ i ∈ Finset.range v.dim, denE v.entries i := by
+  unfold Vec.sum
+  rw [kbnSum_eq_sum, sum_denE h.2]
+
+/-- `Vector.Norm2` (before the square root) is the sum of squares of the dense vector. -/
+theorem norm2_sq (v : Vec K) (h : WF v.dim v.entries) :
+    Vec.sumSq v = ∑ i ∈ Finset.range v.dim, (denE v.entries i) ^ 2 := by
+  unfold Vec.sumSq
+  rw [kbnSum_eq_sum, sum_denE_sq h]
+  rfl
+
+/-! ## 4. dot product -/
+
+/-- `VecDot` is the dense inner product. -/
+theorem vecDot_eq_sum {dim : Nat} {e1 e2 : List (Entry K)} (h1 : WF dim e1) (h2 : WF dim e2) :
+    vecDot e1 e2 = ∑ i ∈ Finset.range dim, denE e1 i * denE e2 i :=
+  vecDot_eq_finset_sum h1 h2.1
+
+/-- `VecDot` is symmetric. -/
+theorem vecDot_comm {dim : Nat} {e1 e2 : List (Entry K)} (h1 : WF dim e1) (h2 : WF dim e2) :
+    vecDot e1 e2 = vecDot e2 e1 := by
+  rw [vecDot_eq_sum h1 h2, vecDot_eq_sum h2 h1]
+  exact Finset.sum_congr rfl (fun i _ => mul_comm _ _)
+
+/-! ## 5. matrix-vector product -/
+
+/-- `MulVec`: the result has the matrix dimension and denotes the dense matrix-vector product
+    (for every index `i`; beyond the dimension both sides are `0`). -/
+theorem den_mulVec (m : CSM K) (v r : Vec K)
+    (hrows : ∀ row ∈ m.rows, WF m.minor row) (hv : WF v.dim v.entries)
+    (h : mulVec m v = .ok r) :
+    r.dim = m.major ∧
+    ∀ i, denE r.entries i = ∑ j ∈ Finset.range m.minor, denM m.rows i j * denE v.entries j := by
+  unfold mulVec CSM.dim at h
+  by_cases hsq : m.major = m.minor
+  · by_cases hd : m.major = v.dim
+    · simp only [hsq, hd, ne_eq, not_true_eq_false, if_false] at h
+      rw [← hd, hsq] at h
+      cases h
+      refine ⟨hsq.symm, fun i => ?_⟩
+      have hv' : WF m.minor v.entries := by rw [← hsq, hd]; exact hv
+      simp only
+      rw [den_mulVecEntries, vecDot_eq_finset_sum (wf_getD hrows i) hv'.1]
+      rfl
+    · simp [hsq] at h
+      have : ¬ m.minor = v.dim := by rw [← hsq]; exact hd
+      simp [this] at h
+  · simp [hsq] at h
+
+/-- `MulVec`: the result is well-formed for the matrix dimension (strictly increasing indices,
+    all `< m.major`) and stores no explicit zero. -/
+theorem wf_mulVec (m : CSM K) (v r : Vec K) (hlen : m.rows.length = m.major)
+    (h : mulVec m v = .ok r) :
+    r.dim = m.major ∧ WF r.dim r.entries ∧ ∀ e ∈ r.entries, e.val ≠ 0 := by
+  unfold mulVec CSM.dim at h
+  by_cases hsq : m.major = m.minor
+  · by_cases hd : m.major = v.dim
+    · simp only [hsq, hd, ne_eq, not_true_eq_false, if_false] at h
+      rw [← hd] at h
+      cases h
+      refine ⟨rfl, ?_, fun e he => (mem_mulVecEntries he).2.2⟩
+      simp only
+      rw [← hlen]; exact wf_mulVecEntries _ _
+    · simp [hsq] at h
+      have : ¬ m.minor = v.dim := by rw [← hsq]; exact hd
+      simp [this] at h
+  · simp [hsq] at h
+
+/-- The product loop itself: strictly increasing indices below the number of rows. -/
+theorem wf_mulVecEntries (rows : List (Row K)) (v : List (Entry K)) :
+    WF rows.length (mulVecEntries rows v) := EtVerif.wf_mulVecEntries rows v
+
+/-- The product loop stores exactly the non-zero row products: an entry is stored iff … -/
+theorem mulVecEntries_nonzero (rows : List (Row K)) (v : List (Entry K)) :
+    ∀ e ∈ mulVecEntries rows v, e.val ≠ 0 ∧ e.val = vecDot (rows.getD e.idx []) v :=
+  fun _ he => ⟨(mem_mulVecEntries he).2.2, (mem_mulVecEntries he).2.1⟩
+
+/-! ## 6. well-formedness is preserved -/
+
+theorem wf_add {dim : Nat} {e1 e2 : List (Entry K)} (h1 : WF dim e1) (h2 : WF dim e2) :
+    WF dim (addEntries e1 e2) := wf_addEntries h1 h2
+
+theorem wf_sub {dim : Nat} {e1 e2 : List (Entry K)} (h1 : WF dim e1) (h2 : WF dim e2) :
+    WF dim (subEntries e1 e2) := wf_subEntries h1 h2
+
+/-- `AddVec` on well-formed vectors yields a well-formed vector of the same dimension. -/
+theorem wf_addVec (v1 v2 r : Vec K) (h1 : WF v1.dim v1.entries) (h2 : WF v2.dim v2.entries)
+    (h : v1.addVec v2 = .ok r) : r.dim = v1.dim ∧ WF r.dim r.entries := by
+  unfold Vec.addVec at h
+  split at h
+  · cases h
+  · rename_i hd
+    have hd : v1.dim = v2.dim := by simpa using hd
+    cases h
+    exact ⟨rfl, wf_addEntries h1 (hd ▸ h2)⟩
+
+/-- `SubVec` on well-formed vectors yields a well-formed vector of the same dimension. -/
+theorem wf_subVec (v1 v2 r : Vec K) (h1 : WF v1.dim v1.entries) (h2 : WF v2.dim v2.entries)
+    (h : v1.subVec v2 = .ok r) : r.dim = v1.dim ∧ WF r.dim r.entries := by
+  unfold Vec.subVec at h
+  split at h
+  · cases h
+  · rename_i hd
+    have hd : v1.dim = v2.dim := by simpa using hd
+    cases h
+    exact ⟨rfl, wf_subEntries h1 (hd ▸ h2)⟩
+
+/-- `ScaleVec` keeps well-formedness (any factor). -/
+theorem wf_scale (a : K) (v : Vec K) (h : WF v.dim v.entries) :
+    WF (Vec.scale a v).dim (Vec.scale a v).entries := by
+  unfold Vec.scale
+  split
+  · exact WF.nil _
+  · exact wf_scaleEntries a h
+
+/-- `scaleInPlace` with a factor `≠ 1` stores no explicit zero … -/
+theorem scaleEntries_nonzero {a : K} (ha : a ≠ 1) (es : List (Entry K)) :
+    ∀ e ∈ scaleEntries a es, e.val ≠ 0 := by
+  intro e he
+  obtain ⟨x, _, hz, rfl⟩ := (mem_scaleEntries ha).mp he
+  exact hz
+
+/-- … and with factor `1` returns its input unchanged (stored zeros, if any, stay). -/
+theorem scaleEntries_one (es : List (Entry K)) : scaleEntries (1 : K) es = es :=
+  EtVerif.scaleEntries_one es
+
+/-- `ScaleVec`: if the input stores no explicit zero, neither does the result (any factor);
+    for a factor `≠ 1` the result never stores an explicit zero. -/
+theorem scale_nonzero (a : K) (v : Vec K) (h : a ≠ 1 ∨ ∀ e ∈ v.entries, e.val ≠ 0) :
+    ∀ e ∈ (Vec.scale a v).entries, e.val ≠ 0 := by
+  unfold Vec.scale
+  split
+  · intro e he; cases he
+  · by_cases ha : a = 1
+    · subst ha
+      rcases h with h | h
+      · exact absurd rfl h
+      · simpa [EtVerif.scaleEntries_one] using h
+    · exact scaleEntries_nonzero ha _
+
+/-! ## 7. dimension mismatches are errors -/
+
+section errors
+variable {α : Type} [Scalar α]
+
+/-- (any scalar type, in particular `Float`) -/
+theorem dim_mismatch_add (v1 v2 : Vec α) (h : v1.dim ≠ v2.dim) :
+    v1.addVec v2 = .error .dimMismatch := by
+  simp [Vec.addVec, h]
+
+theorem add_ok (v1 v2 : Vec α) (h : v1.dim = v2.dim) :
+    v1.addVec v2 = .ok ⟨v1.dim, addEntries v1.entries v2.entries⟩ := by
+  simp [Vec.addVec, h]
+
+theorem dim_mismatch_sub (v1 v2 : Vec α) (h : v1.dim ≠ v2.dim) :
+    v1.subVec v2 = .error .dimMismatch := by
+  simp [Vec.subVec, h]
+
+theorem sub_ok (v1 v2 : Vec α) (h : v1.dim = v2.dim) :
+    v1.subVec v2 = .ok ⟨v1.dim, subEntries v1.entries v2.entries⟩ := by
+  simp [Vec.subVec, h]
+
+/-- A non-square matrix or a vector of another dimension is an error (never a result). -/
+theorem dim_mismatch_mulVec (m : CSM α) (v : Vec α) (h : m.major ≠ m.minor ∨ m.major ≠ v.dim) :
+    mulVec m v = .error .dimMismatch := by
+  unfold mulVec CSM.dim
+  by_cases hsq : m.major = m.minor
+  · rcases h with h | h
+    · exact absurd hsq h
+    · simp [hsq]
+      intro hc; exact absurd (hsq.trans hc) h
+  · simp [hsq]
+
+theorem mulVec_ok (m : CSM α) (v : Vec α) (h1 : m.major = m.minor) (h2 : m.major = v.dim) :
+    mulVec m v = .ok ⟨m.major, mulVecEntries m.rows v.entries⟩ := by
+  unfold mulVec CSM.dim
+  have : m.minor = v.dim := h1 ▸ h2
+  simp [h1, this]
+
+/-! ## 8. every output value is ONE scalar operation on input values (any scalar type) -/
+
+/-- Each entry produced by `AddVec` is an input entry or a single `add` of the two input
+    values at the same index — one rounding at `Float`. -/
+theorem add_entrywise (e1 e2 : List (Entry α)) (x : Entry α) (hx : x ∈ addEntries e1 e2) :
+    x ∈ e1 ∨ x ∈ e2 ∨
+      ∃ a ∈ e1, ∃ b ∈ e2, a.idx = b.idx ∧ x = ⟨a.idx, Scalar.add a.val b.val⟩ :=
+  mem_addEntries hx
+
+/-- Each entry produced by `SubVec` is an entry of the minuend, a single `neg` of an entry of
+    the subtrahend, or a single `sub` of the two input values at the same index. -/
+theorem sub_entrywise (e1 e2 : List (Entry α)) (x : Entry α) (hx : x ∈ subEntries e1 e2) :
+    x ∈ e1 ∨ (∃ b ∈ e2, x = ⟨b.idx, Scalar.neg b.val⟩) ∨
+      ∃ a ∈ e1, ∃ b ∈ e2, a.idx = b.idx ∧ x = ⟨a.idx, Scalar.sub a.val b.val⟩ :=
+  mem_subEntries hx
+
+end errors
+
+/-! ## non-vacuity: concrete inputs over ℚ satisfying the hypotheses -/
+
+section examples
+
+/-- `u = (1, 0, 2, 0)`, `w = (0, 3, -2, 0)` as sparse vectors of dimension 4 -/
+private def u : Vec ℚ := ⟨4, [⟨0, 1⟩, ⟨2, 2⟩]⟩
+private def w : Vec ℚ := ⟨4, [⟨1, 3⟩, ⟨2, -2⟩]⟩
+/-- the 2×2 matrix `[[1, 2], [0, 3]]` and the vector `(1, 1)` -/
+private def mm : CSM ℚ := ⟨2, 2, [[⟨0, 1⟩, ⟨1, 2⟩], [⟨1, 3⟩]], []⟩
+private def x2 : Vec ℚ := ⟨2, [⟨0, 1⟩, ⟨1, 1⟩]⟩
+
+private theorem wf_u : WF u.dim u.entries := by simp [WF, Sorted, u]
+private theorem wf_w : WF w.dim w.entries := by simp [WF, Sorted, w]
+private theorem wf_x2 : WF x2.dim x2.entries := by simp [WF, Sorted, x2]
+private theorem wf_mm : ∀ row ∈ mm.rows, WF mm.minor row := by simp [WF, Sorted, mm]
+
+example : ∃ r, u.addVec w = .ok r ∧ ∀ i, denE r.entries i = denE u.entries i + denE w.entries i :=
+  ⟨_, add_ok u w rfl, den_add u w _ (add_ok u w rfl)⟩
+example : ∃ r, u.subVec w = .ok r ∧ ∀ i, denE r.entries i = denE u.entries i - denE w.entries i :=
+  ⟨_, sub_ok u w rfl, den_sub u w _ (sub_ok u w rfl)⟩
+example : denE (Vec.scale 3 u).entries 2 = 3 * denE u.entries 2 := den_scale 3 u 2
+example : denE (Vec.scale 0 u).entries 2 = 0 * denE u.entries 2 := den_scale 0 u 2
+example : denE (Vec.scale 1 u).entries 2 = 1 * denE u.entries 2 := den_scale 1 u 2
+example : Vec.sum u = ∑ i ∈ Finset.range 4, denE u.entries i := sum_eq u wf_u
+example : Vec.sumSq u = ∑ i ∈ Finset.range 4, (denE u.entries i) ^ 2 := norm2_sq u wf_u
+example : vecDot u.entries w.entries = ∑ i ∈ Finset.range 4, denE u.entries i * denE w.entries i :=
+  vecDot_eq_sum wf_u wf_w
+example : vecDot u.entries w.entries = vecDot w.entries u.entries := vecDot_comm wf_u wf_w
+/-- the dot product of the example is `-4`, not a degenerate `0 = 0` -/
+example : ∑ i ∈ Finset.range 4, denE u.entries i * denE w.entries i = -4 := by
+  simp [Finset.sum_range_succ, u, w]; norm_num
+example : ∃ r, mulVec mm x2 = .ok r ∧ r.dim = 2 ∧
+    ∀ i, denE r.entries i = ∑ j ∈ Finset.range 2, denM mm.rows i j * denE x2.entries j :=
+  ⟨_, mulVec_ok mm x2 rfl rfl, den_mulVec mm x2 _ wf_mm wf_x2 (mulVec_ok mm x2 rfl rfl)⟩
+example : ∃ r, mulVec mm x2 = .ok r ∧ r.dim = 2 ∧ WF r.dim r.entries ∧ ∀ e ∈ r.entries, e.val ≠ 0 :=
+  ⟨_, mulVec_ok mm x2 rfl rfl, wf_mulVec mm x2 _ rfl (mulVec_ok mm x2 rfl rfl)⟩
+example : WF 4 (addEntries u.entries w.entries) := wf_add wf_u wf_w
+example : WF 4 (subEntries u.entries w.entries) := wf_sub wf_u wf_w
+example : WF 4 (Vec.scale 3 u).entries := wf_scale 3 u wf_u
+example : ∀ e ∈ scaleEntries (3 : ℚ) u.entries, e.val ≠ 0 := scaleEntries_nonzero (by norm_num) _
+example : u.addVec x2 = .error .dimMismatch := dim_mismatch_add u x2 (by decide)
+example : u.subVec x2 = .error .dimMismatch := dim_mismatch_sub u x2 (by decide)
+example : mulVec mm u = .error .dimMismatch := dim_mismatch_mulVec mm u (Or.inr (by decide))
+
+end examples
 
 end EtVerif.C09
